@@ -201,3 +201,6 @@ ITEMS = [
        ),
 ]
 CANARIES = ['is_authorized_core_internal', 'from']
+# mechanisms of C13 at the response level that no unit covers: a change to them cannot be decided by this check
+UNCOVERED = [('cedar-policy-core/src/authorizer/partial_response.rs', 'impl PartialResponse > fn reauthorize'),
+             ('cedar-policy-core/src/authorizer/partial_response.rs', 'impl PartialResponse > fn concretize_request')]
